@@ -44,8 +44,13 @@ pub fn gen_case(seed: u64, idx: usize, kinds: &[SectionKind], mode: usize) -> Ca
 
 /// `names`: when not empty, the path of the i-th section (coverage floor over pairs of file-name classes).
 pub fn gen_case_named(seed: u64, idx: usize, kinds: &[SectionKind], mode: usize, names: &[&str]) -> Case {
+    gen_case_full(seed, idx, kinds, mode, names, false)
+}
+
+/// `wide_first`: the first section has line numbers of 5-7 digits, the others small ones.
+pub fn gen_case_full(seed: u64, idx: usize, kinds: &[SectionKind], mode: usize, names: &[&str], wide_first: bool) -> Case {
     let mut rng = Rng::new(mix(seed, &[tag("C10"), tag("concat"), idx as u64]));
-    let gp = GenParams { flavor: gen::Flavor::Git, sections: vec![], max_hunks: rng.range(1, 3), pivot: *rng.pick(&[1usize, 2, 3]), max_run: 6, with_commit_preamble: false, multibyte: rng.chance(1, 4), no_newline_marker: rng.chance(1, 2), similar_pairs: rng.chance(1, 2), no_index_lines: rng.chance(1, 4), no_prefix: rng.chance(1, 6) };
+    let gp = GenParams { flavor: gen::Flavor::Git, sections: vec![], max_hunks: rng.range(1, 3), pivot: *rng.pick(&[1usize, 2, 3]), max_run: 6, with_commit_preamble: false, multibyte: rng.chance(1, 4), no_newline_marker: rng.chance(1, 2), similar_pairs: rng.chance(1, 2), no_index_lines: rng.chance(1, 4), no_prefix: rng.chance(1, 6), line_number_class: 0 };
     let mut sections = Vec::new();
     let mut tok = 0;
     // one time in three all sections are about the same path (`git log -p -- path`, a file added in
@@ -56,6 +61,10 @@ pub fn gen_case_named(seed: u64, idx: usize, kinds: &[SectionKind], mode: usize,
     let with_stat = log_stream && rng.chance(1, 3);
     for (i, k) in kinds.iter().enumerate() {
         let forced = if names.is_empty() { shared.clone() } else { Some(names[i % names.len()].to_string()) };
+        let mut gp = gp.clone();
+        if wide_first {
+            gp.line_number_class = if i == 0 { 1 } else { 2 };
+        }
         let s = if log_stream { gen::generate_commit_unit(&mut rng, &gp, *k, i, tok, forced, with_stat) } else { gen::generate_section_named(&mut rng, &gp, *k, i, tok, forced) };
         tok += s.iter().filter(|l| l.token.is_some()).count();
         sections.push(s);
@@ -211,6 +220,16 @@ pub fn main_c10(tier: &str, seed: u64, replay: Option<&str>) -> i32 {
             specs.push(((0..n).map(|_| *rng.pick(ALL_SECTION_KINDS)).collect(), rng.range(0, MODES.len() - 1)));
         }
     }
+    // coverage floor: a section with wide line numbers followed by one with narrow ones, about the
+    // same path, with line numbers shown
+    let wide_start = name_cells.len();
+    for a in [SectionKind::Modified, SectionKind::Deleted, SectionKind::Added, SectionKind::ModifiedEndsChanged, SectionKind::RenamedChanged, SectionKind::ModeAndChange] {
+        for b in [SectionKind::Modified, SectionKind::Deleted, SectionKind::Added, SectionKind::ModifiedEndsChanged] {
+            for m in [1usize, 2, 4] {
+                name_cells.push((vec![a, b], m, vec!["src/same.rs", "src/same.rs"]));
+            }
+        }
+    }
     let n_plain = specs.len();
     for (k, m, _) in &name_cells {
         specs.push((k.clone(), *m));
@@ -219,7 +238,7 @@ pub fn main_c10(tier: &str, seed: u64, replay: Option<&str>) -> i32 {
         if i < n_plain {
             gen_case(seed, i, &specs[i].0, specs[i].1)
         } else {
-            gen_case_named(seed, i, &specs[i].0, specs[i].1, &name_cells[i - n_plain].2)
+            gen_case_full(seed, i, &specs[i].0, specs[i].1, &name_cells[i - n_plain].2, i - n_plain >= wide_start)
         }
     };
     let results = crate::par_map(specs.len(), &|i| {
